@@ -501,8 +501,50 @@ def run(rec, shard, nshards, t):
             rec.sample({'format': lay['fmt'], 'template': lay['template'], 'file': render_csv(rows, True, len(lay['roles']), ',', '\n'),
                         'kinds': [r['kind'] for r in rows]})
             witnesses(rec, tmp)
+            locale_probe(rec, tmp)
     finally:
         shutil.rmtree(tmp, ignore_errors=True)
+
+
+LOCALE_CHILD = """
+import json, sys
+sys.path.insert(0, sys.argv[1])
+from tally.config_loader import resolve_source_format
+from tally.parsers import parse_generic_csv
+src = json.loads(sys.argv[3])
+rs = resolve_source_format(src)
+got = parse_generic_csv(sys.argv[2], rs['_format_spec'], [], source_name=src['name'], decimal_separator=rs.get('decimal_separator', '.'))
+sys.stdout.buffer.write(json.dumps([[t['date'].isoformat(), t['raw_description'], t['amount'], t.get('field')] for t in got]).encode('ascii'))
+"""
+
+
+def locale_probe(rec, tmp):
+    """Statement files are UTF-8 whatever the locale of the process that reads them: the same file read by a process started under LC_ALL=C (no UTF-8
+    mode) gives the same transactions as here."""
+    import json as _json
+    import subprocess
+    p = os.path.join(tmp, 'loc.csv')
+    cases = [({'name': 'Src', 'file': 'x', 'format': '{date:%Y-%m-%d},{description},{amount},{memo}'},
+              'Date,Description,Amount,Memo\n2025-01-03,CAF\u00c9 BLEU,4.50,\u00fcber\n2025-01-04,PLAIN,5.00,x\n2025-01-05,\u017bABKA Z5123,6.00,\u8cb7\u3044\u7269\n'),
+             ({'name': 'Src', 'file': 'x', 'format': '{date:%d.%m.%Y},{description},{amount}', 'delimiter': 'tab', 'decimal_separator': ','},
+              'Datum\tText\tBetrag\n03.01.2025\tB\u00e4ckerei M\u00fcller\t4,50\n04.01.2025\tPLAIN\t5,00\n'),
+             ({'name': 'Src', 'file': 'x', 'format': '{date:%m/%d/%Y},{description},{amount}', 'has_header': False,
+               'delimiter': r'regex:^(\d{2}/\d{2}/\d{4})\s+(.+?)\s+([\d.]+)$'}, '01/02/2025  CAF\u00c9 \U0001f355  5.00\n01/03/2025  BETA  6.00\n')]
+    env = dict(os.environ, LC_ALL='C', LANG='C', PYTHONUTF8='0', PYTHONCOERCECLOCALE='0')
+    env.pop('PYTHONIOENCODING', None)
+    for src, text in cases:
+        with open(p, 'w', encoding='utf-8', newline='') as f:
+            f.write(text)
+        here = [[t['date'].isoformat(), t['raw_description'], t['amount'], t.get('field')] for t in parse(p, src)]
+        r = subprocess.run([core.PY, '-c', LOCALE_CHILD, core.SRC, p, _json.dumps(src)], capture_output=True, env=env, timeout=120)
+        rec.case()
+        rec.count('files_read_under_a_non_utf8_locale')
+        try:
+            there = _json.loads(r.stdout.decode('ascii'))
+        except Exception:
+            there = 'exit %d: %s' % (r.returncode, r.stderr.decode('utf-8', 'replace')[-200:])
+        if there != _json.loads(_json.dumps(here)):
+            rec.violation('statement-read-depends-on-locale', f'format {src["format"]!r}: {len(here)} transactions here, under LC_ALL=C: {str(there)[:200]}', {'kind': 'locale'})
 
 
 def witnesses(rec, tmp):
@@ -531,6 +573,9 @@ def replay(rec, case):
     try:
         if case['kind'] == 'witness':
             witnesses(rec, tmp)
+            return
+        if case['kind'] == 'locale':
+            locale_probe(rec, tmp)
             return
         if case['kind'] == 'twin':
             rnd = core.rng_for('C05', 'replay')
